@@ -181,13 +181,21 @@ func newOrUndoFilterHandler(h bstream.Handler) bstream.Handler {
 	})
 }
 
-// StepIrreversible and StepNewIrreversible will go through
+// StepIrreversible and StepNewIrreversible will go through, each final block once: after the switch from
+// merged files to a live source whose last irreversible block is behind the files, the live source
+// announces again, as irreversible, blocks that the files already delivered
 func finalBlocksFilterHandler(h bstream.Handler) bstream.Handler {
+	var delivered bool
+	var lastNum uint64
 	return bstream.HandlerFunc(func(block *pbbstream.Block, obj interface{}) error {
-		if obj.(bstream.Stepable).Step().Matches(bstream.StepIrreversible) {
-			return h.ProcessBlock(block, obj)
+		if !obj.(bstream.Stepable).Step().Matches(bstream.StepIrreversible) {
+			return nil
 		}
-		return nil
+		if delivered && block.Number <= lastNum {
+			return nil
+		}
+		delivered, lastNum = true, block.Number
+		return h.ProcessBlock(block, obj)
 	})
 }
 
